@@ -162,7 +162,10 @@ class Case:
     def line(self, cid, mode):
         toks = []
         for o in self.ops:
-            toks.append("%s%d=%s" % (o[0], o[1], fq(o[2])) if o[0] in ("u", "q", "v") else "%s%d" % (o[0], o[1]))
+            if o[0] == "Q":
+                toks.append("Q%d=%s*%d" % (o[1], fq(o[2]), o[3]))       # o[3] quiet updates with the value o[2]
+            else:
+                toks.append("%s%d=%s" % (o[0], o[1], fq(o[2])) if o[0] in ("u", "q", "v") else "%s%d" % (o[0], o[1]))
         return "%s %s %s ; %s" % (cid, mode, d_sexpr(self.desc), " ".join(toks))
     def ops_coq(self):
         out = []
@@ -178,7 +181,7 @@ class Case:
         return r
     def to_json(self):
         return {"desc": d_sexpr(self.desc),
-                "ops": [("%s%d=%s" % (o[0], o[1], fq(o[2])) if o[0] in ("u", "q", "v") else "%s%d" % (o[0], o[1])) for o in self.ops][:20000],
+                "ops": [("Q%d=%s*%d" % (o[1], fq(o[2]), o[3])) if o[0] == "Q" else (("%s%d=%s" % (o[0], o[1], fq(o[2]))) if o[0] in ("u", "q", "v") else "%s%d" % (o[0], o[1])) for o in self.ops][:20000],
                 "impl": ([b.js() for b in self.obs] if self.obs else None), "ctor_ok": self.ctor_ok, "meta": self.meta}
     @staticmethod
     def from_json(j):
@@ -186,7 +189,11 @@ class Case:
         d = parse_desc(toks)
         ops = []
         for t in j["ops"]:
-            if t[0] in ("u", "q", "v"):
+            if t[0] == "Q":
+                i, v = t[1:].split("=")
+                v, k_ = v.split("*")
+                ops.append(("Q", int(i), Fraction(v), int(k_)))
+            elif t[0] in ("u", "q", "v"):
                 i, v = t[1:].split("=")
                 ops.append((t[0], int(i), v if v.startswith("x") else Fraction(v)))
             else:
